@@ -3526,11 +3526,16 @@ impl SctpInner {
             }
         }
 
-        // Advance the advanced peer ack point past consecutive abandoned chunks
-        let last_sacked = self.cumulative_tsn_ack.load(Ordering::SeqCst);
+        // Advance the advanced peer ack point past consecutive abandoned chunks.
+        // Every TSN before the oldest outstanding one has been cumulatively
+        // acknowledged by the peer (`cumulative_tsn_ack` is the receive side and
+        // lives in the peer's TSN space, so it cannot be used here).
         let mut advanced = self.advanced_peer_ack_tsn.load(Ordering::SeqCst);
-        if tsn_gt(last_sacked, advanced) {
-            advanced = last_sacked;
+        if let Some(head) = oldest_outstanding_tsn(&sent_queue) {
+            let last_sacked = head.wrapping_sub(1);
+            if tsn_gt(last_sacked, advanced) {
+                advanced = last_sacked;
+            }
         }
 
         let mut new_advanced = advanced;
@@ -3597,11 +3602,9 @@ impl SctpInner {
     }
 
     fn create_forward_tsn_chunk(&self) -> Option<Bytes> {
+        // Only called right after update_advanced_peer_ack_point() moved the
+        // point past chunks the peer has not acknowledged.
         let advanced = self.advanced_peer_ack_tsn.load(Ordering::SeqCst);
-        let last_sacked = self.cumulative_tsn_ack.load(Ordering::SeqCst);
-        if !tsn_gt(advanced, last_sacked) {
-            return None;
-        }
 
         let stream_ssn_pairs: Vec<(u16, u16)> = {
             let mut fwd = self.forward_tsn_streams.lock();
